@@ -12,6 +12,15 @@ var hxAddrOnly = []string{"a0@x.example", "a1@x.example", "a2@x.example", "a3@x.
 
 const hxInvalidAddr = "not an address"
 
+// hxAtextTbl: the printable specials of RFC 5322 atext (letters and digits are
+// what the fixed pool addresses are made of)
+var hxAtextTbl = func() (t [256]bool) {
+	for _, c := range "!#$%&'*+-/=?^_`{|}~" {
+		t[c] = true
+	}
+	return
+}()
+
 type hxAddrModel struct {
 	to, cc, bcc          []string
 	from, envfrom, reply string
@@ -163,6 +172,17 @@ func HarnessC06Recipients() {
 	m.SetBodyString(TypeTextPlain, "body\r\n")
 	md := &hxAddrModel{}
 	symName := false
+	// one pool address has a local part with symbolic atext specials
+	// (the printable specials a dot-atom may hold: !#$%&'*+-/=?^_`{|}~)
+	if nl := svParam("symlocal", 0); nl > 0 {
+		lp := svBytes("local", nl)
+		for _, c := range lp {
+			svAssume(hxAtextTbl[c])
+		}
+		hxAddrOnly[1] = "a" + string(lp) + "1@x.example"
+		hxAddrPool[1] = hxAddrOnly[1]
+		svReach("symbolic-local-part")
+	}
 	// starting point: an empty message, or one that already has a sender and a
 	// To recipient (so that short op sequences reach the on-the-wire checks with
 	// overlapping To/Cc/Bcc lists)
